@@ -7,6 +7,20 @@ import time
 from concurrent.futures import ThreadPoolExecutor
 
 
+def number_like_bare_key(text):
+    """does a key of this document have a bare segment that Rust lexes as a number? (finding D30)"""
+    for ln in text.splitlines():
+        key = ln.strip()
+        if key.startswith("["):
+            key = key.strip("[] ")
+        else:
+            key = key.split(" =")[0]
+        key = re.sub(r'"(\\.|[^"\\])*"', "Q", key)
+        if re.search(r"(^|[.\-\s])\d", key):
+            return True
+    return False
+
+
 def run(run, binary, drv):
     n_prog, per = (64, 250) if run.tier == "quick" else (768, 250)
     out = os.path.join(drv.HARNESS, "target-macro", "prog")
@@ -72,6 +86,8 @@ def run(run, binary, drv):
                 text = subprocess.run([binary, "macrodoc", str(run.seed), str(idx)], stdout=subprocess.PIPE, text=True).stdout
                 if mism <= 8:
                     sig = "macro-differs-from-parse" if ln.startswith("MISMATCH") else ("macro-table-not-equal-to-parsed-table" if ln.startswith("LIBEQ") else "macro-accepts-what-the-parser-refuses")
+                    if number_like_bare_key(text):
+                        sig += ":number-like-bare-key"
                     run.violations.append({"sig": sig, "detail": ln[:900], "workload": "macro", "index": idx, "input": text, "phase": "run"})
     # token shapes used, measured on the generated sources
     src_all = ""
